@@ -213,7 +213,7 @@ var c06Templates = []string{
 	// let / inner let / pipeline / if-else
 	c06Prelude + "let inc (a:int) =@2@a + 1\n\nlet f (c:bool) (xs:[]int) =\n  let k =@4@inc 2\n  let ys =\n    xs@4@|> slice.Map inc@4@|> slice.Filter (fun x -> x > k)\n  if c then\n    ys\n  else\n    xs\n",
 	// union and string match, arms with bodies on the same or the next line
-	"package main\n\ntype U =\n  | A of int\n  | B\n  | C of string\n\nlet g (u:U) =\n  match u with\n  | A i ->@4@i + 1\n  | B ->@4@0\n  | C s ->@4@2\n\nlet h (s:string) =\n  match s with\n  | \"x\" ->@4@1\n  | _ ->@4@0\n",
+	"package main\n\ntype U =\n  | A of int\n  | B\n  | C of string\n\nlet g (u:U) =\n  match u with\n  | A i ->@4@i + 1\n  | B ->@4@0\n  | C s ->@4@2\n\nlet h (s:string) =\n  match s with\n  | \"x\" ->@4@1\n  | _ ->@4@0\n\nlet hv (s:string) =\n  match s with\n  | \"y\" ->@4@\"is y\"\n  | v ->@4@v\n",
 	// records, inner function, match arm holding an if
 	"package main\n\ntype R = {X: int; Y: string}\n\ntype V =\n  | P of R\n  | Q\n\nlet mk (a:int) =\n  let inner (b:int) =@4@a + b\n  let r = {X=inner 1; Y=\"s\"}\n  r\n\nlet k (v:V) =\n  match v with\n  | P r ->\n    if r.X > 0 then\n      r.X\n    else\n      0\n  | Q ->@4@1\n",
 	// inner function, pipeline continuation lines, lambda; nested match with multi-statement arms; record field on a second line
